@@ -389,8 +389,6 @@ func m1sGen(cfg config, emit func(Case)) {
 
 func init() {
 	properties["m1s"] = []*Entry{{Name: "m1s", Eval: m1sEval, Gen: m1sGen, Isolated: true}}
-	// the endpoint-level run shared by C01 C02 C07 C09 C10 C11 C16: client and server histories
-	properties["m1"] = append(append([]*Entry{}, properties["m1c"]...), properties["m1s"]...)
 }
 
 // m1sMonitor: property conclusions evaluated on the implementation's observations alone.
